@@ -85,6 +85,16 @@ Proof.
     match type of H with context [if ?b then _ else _] => destruct b end; discriminate.
 Qed.
 
+(* the repaired VM only turns some executions into returned errors *)
+Lemma exec_fixed_refines p s o arg next :
+  exec_fixed p s o arg next = exec p s o arg next \/ exists e, exec_fixed p s o arg next = Failed e.
+Proof.
+  unfold exec_fixed. destruct o; auto.
+  - destruct (List.length (ostack s) <? 3)%nat; auto.
+    destruct (set_index_check_fixed _) as [[v|e|c]|]; eauto.
+  - destruct (zero_step (ostack s)); eauto.
+Qed.
+
 (* ---------- the invariant ---------- *)
 Section Safe.
   Variable p : program.
